@@ -66,7 +66,7 @@ def one(ctx, name, cfg, kind, data, seq, do_model=True):
         ctx.expect(name, strat.model_line(name, cfg, f, run.verdicts, kind=kind), run.encode(), case)
     else:
         ctx.evaluations += 1
-    seen = [strat.content(a["cand"]) for a in run.atts if a["resp"] != "s"] + [strat.content(run.best)]
+    seen = [a.get("shown", strat.content(a["cand"])) for a in run.atts if a["resp"] != "s"] + [strat.dumped(strat.mk_like(tc, run.best))]
     for c in seen:
         if not c.startswith(head) or not c.endswith(need_tail):
             what = "the protected prefix" if not c.startswith(head) else (
